@@ -8,8 +8,9 @@
 //!
 //! * history: 2–10 didOpen/didChange/didClose over 1–2 URIs, protocol-valid per URI (open, changes, close,
 //!   reopen ..), versions strictly increasing; text of version n starts with `const V<n>: int = <n>` (padded so
-//!   that the declaration's end column is unique per version), imports a real dependency file, may contain
-//!   0–2 unique semantic errors `undefined_<n>a/b`, or a syntax / lexical error;
+//!   that the declaration's end column is unique per version), imports one or two real dependency files (one
+//!   publish = one possible yield per dependency, before the store), may contain 0–2 unique semantic errors
+//!   `undefined_<n>a/b`, or a syntax / lexical error;
 //! * schedule, executor `free`: actions {start next notification (with its first poll, as `buffer_unordered(4)`
 //!   does, allowed while < 4 are in flight), poll in-flight #k, drain one client message}; afterwards everything
 //!   is run to quiescence by round-robin polling and draining. Every interleaving at await points is reachable.
@@ -22,6 +23,13 @@
 //! open ⇒ hover at (0,6), definition and completion all answer from `V<max>`; every publishDiagnostics carrying
 //! a version mentions exactly the markers of that version's text, and one exists for `max`; every handler
 //! future completes (else exit 2).
+//!
+//! Known findings (`/verif/known-findings.txt`): `stale-kept:syntax-error` is switched off in the generator (the latest
+//! text of an open document is never broken); the two `stale-overwrite:*` signatures are schedule-dependent and
+//! cannot be avoided without giving up every non-trivial schedule, so a failing case whose shape matches the recorded
+//! root cause (the stale version's publish follows the newer version's / the close's publish) is counted under
+//! `excluded_by_known_finding` instead of reported; any other signature is a VIOLATION. `VERIF_C18_STRICT=1`
+//! disables all of this (used for mutants built on top of the proposed fix).
 
 use futures::future::BoxFuture;
 use futures::stream::StreamExt;
